@@ -3,7 +3,10 @@ import json
 
 import jax.tree_util as jtu
 
+import typing
+
 import gen_dims
+import impl
 import gen_prog
 import impl_prog
 import progcheck
@@ -11,7 +14,7 @@ from common import Rng
 from gen_prog import ANY, INT, STR, TUP_II, U_IS, arr_type, arr_val, ival, sval
 
 LEVEL = "proof"
-THEOREMS = ["C08_memofree_check", "C08_stateless", "C08_nested", "C08_bare", "C08_arrays", "C08_reject_binds_nothing"]
+THEOREMS = ["C08_memofree_check", "C08_stateless", "C08_nested", "C08_bare", "C08_arrays", "C08_reject_binds_nothing", "C08_generated_good"]
 RULE = (
     "quick: every tree of depth <=2 over tuple/list/dict/None with <=2 children (per leaf value pool) and "
     "seeded random trees of depth <=3 incl. namedtuples and registered nodes, x leaf types {int, str, "
@@ -115,7 +118,56 @@ def run(tier, seed, out, drv, facts):
                     gb, _ = impl_prog.run_program(before, "typeguard", rng)
                     if progcheck.last_bindings(gb) != progcheck.last_bindings(got):
                         out.violation(f"reject-binds:{name}", f"a rejected tree changed the bindings from {progcheck.last_bindings(gb)} to {progcheck.last_bindings(got)}", {"program": prog})
+    arraylike_node_cases(out)
     after_fault_cases(out)
+
+
+def arraylike_node_cases(out):
+    """a subtree that itself matches L counts as a leaf — also when it is a registered PyTree NODE (an array-like
+    wrapper with `shape` / `dtype` whose children are raw buffers of other shapes): the is-leaf test decides, not
+    what jax.tree_util would flatten"""
+    import jax
+    import jaxtyping
+    from jaxtyping import Float, PyTree, jaxtyped
+
+    class Buf:
+        def __init__(self, shape, dtype="float32"):
+            self.shape, self.dtype = tuple(shape), dtype
+
+    class Masked:
+        """array-like of shape (n,), stored as a (2, n) buffer and a mask"""
+        def __init__(self, n):
+            self.data, self.mask = Buf((2, n)), Buf((n,), "bool")
+            self.shape, self.dtype = (n,), "float32"
+
+    class Flat:
+        """array-like of shape (r, c), stored as one flat buffer of r*c"""
+        def __init__(self, r, c):
+            self.buf = Buf((r * c,))
+            self.shape, self.dtype = (r, c), "float32"
+
+    def mk(cls, children):
+        o = cls.__new__(cls)
+        o.__dict__.update(children)
+        return o
+
+    jax.tree_util.register_pytree_node(Masked, lambda m: ((m.data, m.mask), (m.shape, m.dtype)), lambda aux, ch: mk(Masked, dict(data=ch[0], mask=ch[1], shape=aux[0], dtype=aux[1])))
+    jax.tree_util.register_pytree_node(Flat, lambda f: ((f.buf,), (f.shape, f.dtype)), lambda aux, ch: mk(Flat, dict(buf=ch[0], shape=aux[0], dtype=aux[1])))
+    cases = [
+        ("tree of wrappers that match L", PyTree[Float[Masked, "n"]], (Masked(3), [Masked(3)]), "T", {"n": 3}),
+        ("wrappers of different sizes", PyTree[Float[Masked, "n"]], (Masked(3), Masked(4)), "F", {}),
+        ("Any: the wrapper has rank 2, its buffer rank 1", PyTree[Float[typing.Any, "n"]], {"k": Flat(2, 3)}, "F", {}),
+        ("Any: the wrapper matches, its buffer would not", PyTree[Float[typing.Any, "r c"]], [Flat(2, 3), Flat(2, 3)], "T", {"r": 2, "c": 3}),
+        ("a raw buffer is a leaf too", PyTree[Float[typing.Any, "n"]], (Buf((6,)), Buf((6,))), "T", {"n": 6}),
+    ]
+    for name, ann, tree, want, want_b in cases:
+        with jaxtyped("context"):
+            got = impl.check_once(tree, ann)
+            b = dict(impl.canon_bindings(impl.bindings())["single"])
+        out.case(("arraylike-node", name), True, sample={"case": name, "verdict": got, "bindings": b})
+        if got != want or b != want_b:
+            out.violation(f"arraylike-node:{want}->{got}", f"{name}: PyTree[L] must answer {want} with bindings {want_b} (every subtree matching L is a leaf), observed {got} with {b}",
+                          {"arraylike_node": name})
 
 
 def after_fault_cases(out):
@@ -188,6 +240,9 @@ def after_fault_cases(out):
 def replay(rep, out, drv, facts):
     if "after_fault" in rep:
         after_fault_cases(out)
+        return
+    if "arraylike_node" in rep:
+        arraylike_node_cases(out)
         return
     progcheck.compare_program(out, drv, facts, rep["program"], "replay", as_violation=as_violation)
     out.case("replay", True, sample=rep["program"])
